@@ -4,8 +4,16 @@ PROP = dict(
     models=[
         dict(module="ProxyRelay", cfg=dict(quick="ProxyRelay_quick.cfg", thorough="ProxyRelay_thorough.cfg"), emit=True, workers=8,
              timeout=dict(quick=300, thorough=900)),
+        # extension: the connection-upgrade (websocket) tunnel and response streaming (ProxyTunnel.tla, notes/ProxyTunnel.md);
+        # the emitting job of a module comes last
+        dict(module="ProxyTunnel", cfg=dict(quick="ProxyTunnel_quick.cfg", thorough="ProxyTunnel_thorough.cfg"), workers=8, timeout=dict(quick=300, thorough=900)),
+        dict(module="ProxyTunnel", cfg=dict(thorough="ProxyTunnelLive.cfg"), workers=4, timeout=dict(thorough=600)),
+        dict(module="ProxyTunnel", cfg=dict(quick="ProxyTunnelSync_quick.cfg", thorough="ProxyTunnelSync_thorough.cfg"), emit=True, workers=8,
+             timeout=dict(quick=300, thorough=900)),
     ],
-    go=[dict(pkg="c04", test="TestC04", timeout=dict(quick=600, thorough=2400))],
+    go=[dict(pkg="c04", test="TestC04", timeout=dict(quick=600, thorough=2400)),
+        dict(pkg="cx04tunnel", test="TestCx04Tunnel", timeout=dict(quick=600, thorough=1800))],
+    traces=[dict(name="proxytunnel", module="ProxyTunnelTrace", cfg="ProxyTunnelTrace.cfg", timeout=900)],
     exhaustive=dict(quick=True, thorough=True),
     technique="TLA+ spec ProxyRelay.tla model-checked by TLC; every emitted case replayed through a real casket proxy site "
               "between a raw HTTP/1.1 client and a raw TCP backend",
